@@ -153,7 +153,6 @@ fn probe(re: &Regex, text: &str, p: &str) -> String {
                     }
                     Err(e) => {
                         v.push(format!("ERR:{}", error_kind(&e)));
-                        break;
                     }
                 }
             }
